@@ -19,7 +19,15 @@
    -> the reader accepts d with the same structure): it needs the converse of every construct
    lemma of Proofs/EdifFileSound.v plus "declared before use" in [supported]; the first half of
    [C05_full] for UNSUPPORTED documents is false on the faithful model (open findings C05-K10,
-   K11, K13): [C05_full_refuted], from a computed witness, which is why [supported] excludes them.
+   K13): [C05_full_refuted], from a computed witness, which is why [supported] excludes them.
+   Repaired K7 / K11: net names containing * or ? are ordinary names (exact lookups; the model no
+   longer declines them); a bit given by several nets holds the pins of all of them and nothing
+   moves ([C05_multibit_assemble_all] without NoDup, [nets_ok] no longer asks for different
+   indices, the old refutation witness is the positive [C05_duplicate_bit_document_read]).
+   Repaired K4: bit identifiers starting with "&_" are bits like any others ([C05_bit_ident_exact] is
+   unconditional, [C05_bitname_inverse] / [C05_bus_read] lose the identifier side condition,
+   [C05_amp_bits_merged] is the former witness). Still open on the bit-net side: K9 (names starting
+   with a backslash: [name_ok]), K10, K13 ([nets_ok]).
    Repaired reader defects (K14, K15, K16), now positive statements: an instance without viewRef and an
    array port of size < 1 are refused ([C05_instances_referenced_ports_nonempty], examples
    [C05_bare_instance_rejected], [C05_array_size_zero_rejected]); everything after the design construct
@@ -67,14 +75,11 @@ Proof. exact bitname_bracket_full. Qed.
 Print Assumptions C05_bit_name_exact.
 
 Theorem C05_bit_ident_exact : forall (ident : str) (i : N),
-  sep_underscore (bit_ident ident i) =
-  if negb (starts_amp_us (ident ++ [c_us])) || is_empty (last (split_on c_us ident) [])
-  then (Some i, ident) else (None, bit_ident ident i).
+  sep_underscore (bit_ident ident i) = (Some i, ident).
 Proof. exact bitname_underscore_full. Qed.
 Print Assumptions C05_bit_ident_exact.
 
 Theorem C05_bitname_inverse : forall (ident name : str) (i : N),
-  starts_amp_us (ident ++ [c_us]) = false ->
   (match name with c :: _ => c <> c_bsl | [] => True end) ->
   net_bit (bit_ident ident i) (bit_name name i) = Some (Some i, name, ident).
 Proof. exact bitname_inverse. Qed.
@@ -105,6 +110,17 @@ Theorem C05_multibit_assemble : forall P (bits : list (N * list P)) c,
 Proof. exact multibit_assemble. Qed.
 Print Assumptions C05_multibit_assemble.
 
+(* any bits at all - a bit may be given by several nets (repaired K11): bit i holds the pins of ALL
+   nets of bit i in file order, lower index and width are least bit and span *)
+Theorem C05_multibit_assemble_all : forall P (bits : list (N * list P)) c,
+  assemble bits = Some c ->
+     c_lower c = min_idx (idxs bits)
+  /\ N.of_nat (length (c_wires c)) = (max_idx (idxs bits) - min_idx (idxs bits) + 1)%N
+  /\ c_array c = true
+  /\ forall i, wire_of c i = gather i bits.
+Proof. exact multibit_assemble_all. Qed.
+Print Assumptions C05_multibit_assemble_all.
+
 Theorem C05_multibit_subset : forall P (full bits' rest : list (N * list P)) c,
   NoDup (idxs full) -> Permutation full (bits' ++ rest) -> assemble bits' = Some c ->
      c_lower c = min_idx (idxs bits')
@@ -120,7 +136,7 @@ Print Assumptions C05_multibit_subset.
 (* the nets "id_i_"/"name[i]" of a bus, whichever bits are present and in whatever order, are read
    as ONE cable (name, id) = the cable [assemble] describes *)
 Theorem C05_bus_read : forall P ident name (bits : list (N * list P)) nets c,
-  ident_ok ident -> name_ok name -> NoDup (idxs bits) -> bits <> [] ->
+  name_ok name -> NoDup (idxs bits) -> bits <> [] ->
   nets = map (fun '(i, w) => (bit_ident ident i, bit_name name i, w)) bits ->
   read_cable nets = Some (name, ident, c) ->
      c_lower c = min_idx (idxs bits)
@@ -133,7 +149,7 @@ Proof. exact bus_subset_positions. Qed.
 Print Assumptions C05_bus_read.
 
 Theorem C05_bus_read_exists : forall P ident name (bits : list (N * list P)) nets,
-  ident_ok ident -> name_ok name -> NoDup (idxs bits) -> bits <> [] ->
+  name_ok name -> NoDup (idxs bits) -> bits <> [] ->
   nets = map (fun '(i, w) => (bit_ident ident i, bit_name name i, w)) bits ->
   exists c, read_cable nets = Some (name, ident, c).
 Proof. exact bus_subset_read. Qed.
@@ -142,17 +158,16 @@ Print Assumptions C05_bus_read_exists.
 Example C05_multibit_example : ltac:(let t := type of multibit_example in exact t).
 Proof. exact multibit_example. Qed.
 
-(* why NoDup is needed: a second net for the bit that is the cable's current lower index is
-   PREPENDED, shifting every other bit by one (seen on bundled float_demo.edf) *)
-Example C05_refuted_duplicate_lower_bit : ltac:(let t := type of multibit_duplicate_lower_shifts in exact t).
-Proof. exact multibit_duplicate_lower_shifts. Qed.
+(* the former refutation witness (K11, repaired; seen on bundled float_demo.edf): a second net for the bit
+   that is the cable's current lower index joins that bit - it used to be PREPENDED, shifting every bit *)
+Example C05_duplicate_lower_bit_joins : ltac:(let t := type of multibit_duplicate_lower_joins in exact t).
+Proof. exact multibit_duplicate_lower_joins. Qed.
 
-(* bits whose identifier starts with "&_" (and does not end in "_") are NOT merged *)
-Theorem C05_refuted_amp_bits : forall ident name i,
-  starts_amp_us (ident ++ [c_us]) = true -> (forall p, ident <> p ++ [c_us]) -> name_ok name ->
-  net_bit (bit_ident ident i) (bit_name name i) = Some (None, name, bit_ident ident i).
-Proof. exact bus_amp_lost. Qed.
-Print Assumptions C05_refuted_amp_bits.
+(* repaired K4 (bundled leon3mp_hierarchical.edf, written by Vivado): bits whose identifier starts with "&_"
+   are merged like any others - [C05_bitname_inverse], [C05_bit_ident_exact] and [C05_bus_read] no longer
+   exclude them; the former witness ("_x" with identifier "&_x") is read as one cable *)
+Example C05_amp_bits_merged : ltac:(let t := type of bus_amp_ident_read in exact t).
+Proof. exact bus_amp_ident_read. Qed.
 
 (* (member p x) *)
 Theorem C05_member_reads_position : forall haswire pins k p,
@@ -203,19 +218,24 @@ Qed.
 Print Assumptions C05_full_reader_sound.
 
 (* WITHOUT the restriction to supported documents the first half of C05_full is false on the
-   faithful model: the document [dup_doc] (bits x[0], x[1], then x[0] again) is accepted and its
-   result is not what it denotes; [supported] excludes exactly this shape (finding C05-K11) *)
+   faithful model: the document [k13_doc] (scalar net x, then bit x[0]) is accepted and its
+   result is not what it denotes; [supported] excludes exactly this shape (finding C05-K13) *)
 Theorem C05_full_refuted : ~ C05_full edif_file_reader.
 Proof.
-  intros [H _]. destruct (H dup_doc dup_res) as [Hd _].
-  - change (match elab_file dup_doc with Ok n => Some n | Err _ => None end = Some dup_res).
-    rewrite dup_accepted. reflexivity.
-  - exact (dup_not_denoted Hd).
+  intros [H _]. destruct (H k13_doc k13_res) as [Hd _].
+  - change (match elab_file k13_doc with Ok n => Some n | Err _ => None end = Some k13_res).
+    rewrite k13_accepted. reflexivity.
+  - exact (k13_not_denoted Hd).
 Qed.
 Print Assumptions C05_full_refuted.
 
-Example C05_refuting_document_is_unsupported : EdifFileDenote.supported dup_doc = false.
+Example C05_refuting_document_is_unsupported : EdifFileDenote.supported k13_doc = false.
 Proof. vm_compute. reflexivity. Qed.
+
+(* the former refuting document (K11, repaired: bits x[0], x[1], then x[0] again) is now supported and is
+   read as ONE cable x, lower index 0, wires of 2 pins and 1 pin *)
+Example C05_duplicate_bit_document_read : ltac:(let t := type of dup_doc_read_as_one_bus in exact t).
+Proof. exact dup_doc_read_as_one_bus. Qed.
 
 (* all documents: objects, references, pin designators and top are what the document declares; the
    cables of each cell are read_nets of the denoted nets *)
